@@ -1305,6 +1305,40 @@ def np_where(c, a, b):
     return SA(out)
 
 
+def np_copyto(dst, src, casting="same_kind", where=True):
+    """numpy.copyto: dst[where] = src[where] (src and where broadcast to dst)"""
+    if not isinstance(dst, SA):
+        raise Unsupported("numpy.copyto into something that is no array")
+    r = np_where(where, src, dst)
+    if not isinstance(r, SA) or r.shape != dst.shape:
+        r = np_broadcast_to(r, dst.shape)
+    dst._inplace(r)
+
+
+def np_putmask(a, mask, values):
+    """numpy.putmask for a scalar or a full-size values array (the repeating form is not modelled)"""
+    if not isinstance(a, SA):
+        raise Unsupported("numpy.putmask into something that is no array")
+    v = _wrap(values)
+    if isinstance(v, rnp.ndarray) and v.shape != a.shape:
+        if v.size == 1:
+            values = v.ravel()[0]
+        else:
+            raise Unsupported("numpy.putmask with values of another shape")
+    r = np_where(mask, values, a)
+    if not isinstance(r, SA) or r.shape != a.shape:
+        r = np_broadcast_to(r, a.shape)
+    a._inplace(r)
+
+
+def np_append(arr, values, axis=None):
+    if axis is not None:
+        raise Unsupported("numpy.append with an axis")
+    a = arr.ravel() if isinstance(arr, SA) else np_array(arr if isinstance(arr, (list, tuple)) else [arr])
+    v = values.ravel() if isinstance(values, SA) else np_array(values if isinstance(values, (list, tuple)) else [values])
+    return np_concatenate([a, v])
+
+
 def np_outer(a, b):
     a, b = _wrap(a), _wrap(b)
     return SA(rnp.multiply.outer(a.ravel(), b.ravel()), "f")
@@ -1632,6 +1666,17 @@ def build_module():
     m.max = np_max
     m.min = np_min
     m.where = np_where
+    m.copyto = np_copyto
+    m.putmask = np_putmask
+    m.append = np_append
+    m.hstack = lambda seq: np_concatenate(list(seq))
+    m.equal, m.not_equal = _elementwise2(lambda x, y: x == y), _elementwise2(lambda x, y: x != y)
+    m.less, m.less_equal = _elementwise2(lambda x, y: x < y), _elementwise2(lambda x, y: x <= y)
+    m.greater, m.greater_equal = _elementwise2(lambda x, y: x > y), _elementwise2(lambda x, y: x >= y)
+    m.floor_divide = lambda a, b: a // b
+    m.mod = m.remainder = lambda a, b: a % b
+    m.square = lambda a: a * a
+    m.asanyarray = m.ascontiguousarray = np_asarray
     m.outer = np_outer
     m.multiply = np_multiply
     m.add = np_add
